@@ -19,7 +19,7 @@ import (
 func init() {
 	Register(&Monitor{
 		ID: "C04",
-		Rule: "per case one generated document plus 60 values per type: (i) API level Result.String()/Number()/Bool() of xsel.Number/String/Bool/NodeSet values; (ii) expression level string($v), number($v), boolean($v), not(not($v)), $v + 0, concat($v,''), $v and true(), string-length($v) with $v bound to values of all four types (boundary doubles, random bit patterns, numeric-lexical strings and near misses over {0-9 . - + e E x I n f N a _ space tab CR LF NBSP}, node-sets from reverse axes / unions / reverse-ordered variables); (iii) xsel.GetCursorString on every node. " +
+		Rule: "per case one generated document plus 60 values per type: (i) API level Result.String()/Number()/Bool() of xsel.Number/String/Bool/NodeSet values; (ii) expression level string($v), number($v), boolean($v), not(not($v)), $v + 0, concat($v,''), $v and true(), string-length($v) with $v bound to values of all four types (boundary doubles, random bit patterns, numeric-lexical strings and near misses over {0-9 . - + e E x I n f N a _ space tab CR LF NBSP}, node-sets from reverse axes / unions / reverse-ordered variables); (iii) xsel.GetCursorString on every node (every fourth case through the XML text and ReadXml); (iv) the typed entry points ExecAsString / ExecAsNumber / ExecAsNodeset on random expressions of all four result types from random context nodes: string() / number() of the model's result, the node-set itself, an error for ExecAsNodeset on the other types. " +
 			"Oracle: reference conversions written from XPath 1.0 §3.4/§4.2-4.4 (string(number) accepted iff right lexical form and reads back to the same double). Relations: number(string(x)) = x for finite x, boolean(x) = not(not(x)), string(ns) = string of the first node in document order. " +
 			"distinct_nontrivial = distinct (conversion, value class/value) pairs",
 		Assumptions: []string{"'shortest' decimal expansion is not demanded of string(number), only round-trip and lexical form"},
@@ -219,5 +219,80 @@ func c04Case(r *evid.Run, tier string, idx int, g *rng.R) {
 			}
 		}
 	}
+	// the typed entry points: ExecAsString / ExecAsNumber are string() / number() of the result,
+	// ExecAsNodeset is the node-set itself or an error for the three other types
+	{
+		elems, attrs, targets := vocab(d)
+		cfg := &xast.Cfg{Elems: elems, Attrs: attrs, Prefixes: []string{"p", "q"}, Targets: targets, MaxSteps: 3, MaxDepth: 1, PredPct: 20, Abbrev: 50,
+			Unions: true, Filters: true, Funcs: xast.AllFuncs, StrLits: []string{"", "a", "1", " 2 ", "12.5"}, NumLits: []float64{0, 1, 2, 0.5, 1e21, 1e-7}}
+		// sum() stays out: the order in which the addends are added is not specified, and a
+		// reverse-axis argument legitimately differs from document-order summation in the last bit
+		fns := map[string]bool{}
+		for f, ok := range xast.AllFuncs {
+			fns[f] = ok && f != "sum"
+		}
+		cfg.Funcs = fns
+		gen := &xast.Gen{R: g, C: cfg}
+		for i := 0; i < 12; i++ {
+			e := gen.Expr(xast.Type(g.Intn(4)), 0)
+			n := rng.Pick(g, d.All)
+			// absolute paths are judged for queries started at the root only (DESIGN 3.4)
+			xast.Walk(e, func(x xast.Expr) {
+				if p, ok := x.(xast.Path); ok && p.Abs {
+					n = d.Root
+				}
+			})
+			src := xast.String(e)
+			gr, berr := Build(src)
+			if berr != nil {
+				continue
+			}
+			mv, merr := w.modelEval(n, e)
+			func() {
+				defer func() {
+					if p := recover(); p != nil {
+						viol("typed-entry/panic", fmt.Sprintf("ExecAs* on %s from %s panicked: %v", src, n.Path(), p))
+					}
+				}()
+				gs, es := xsel.ExecAsString(w.m.ToC[n], gr, w.opts...)
+				gn, en := xsel.ExecAsNumber(w.m.ToC[n], gr, w.opts...)
+				gset, eset := xsel.ExecAsNodeset(w.m.ToC[n], gr, w.opts...)
+				r.Eval(3)
+				r.Tab("typed_entry_points", refevalTypeName(mv, merr), 1)
+				if merr != nil {
+					if es == nil || en == nil || eset == nil {
+						viol("typed-entry/error", fmt.Sprintf("%s from %s must fail (%v) but an ExecAs* call returned a value", src, n.Path(), merr))
+					}
+					return
+				}
+				okStr := gs == refeval.ToString(mv)
+				if f, isNum := mv.(float64); isNum {
+					okStr = refeval.AcceptNumberString(f, gs)
+				}
+				if es != nil || !okStr {
+					viol("typed-entry/string", fmt.Sprintf("ExecAsString(%s) from %s = %q (%v), expected %q", src, n.Path(), gs, errStr(es), refeval.ToString(mv)))
+				}
+				if en != nil || !refeval.SameNumber(gn, refeval.ToNumber(mv), false) {
+					viol("typed-entry/number", fmt.Sprintf("ExecAsNumber(%s) from %s = %s (%v), expected %s", src, n.Path(), showDouble(gn), errStr(en), showDouble(refeval.ToNumber(mv))))
+				}
+				if mset, isSet := mv.(refeval.NodeSet); isSet {
+					got, _ := w.m.Value(gset)
+					if eset != nil || !bridge.Equal(mset, got, false) {
+						viol("typed-entry/node-set", fmt.Sprintf("ExecAsNodeset(%s) from %s = %s (%v), expected %s", src, n.Path(), bridge.Show(got), errStr(eset), bridge.Show(mset)))
+					}
+				} else if eset == nil {
+					viol("typed-entry/node-set", fmt.Sprintf("ExecAsNodeset(%s) from %s returned %d nodes and no error although the result is a %s", src, n.Path(), len(gset), refeval.TypeName(mv)))
+				}
+				r.Sig("typed|"+refeval.TypeName(mv)+"|"+src, true)
+			}()
+		}
+	}
 	r.Sample("doc", 2, map[string]any{"case": idx, "document": d.Dump(), "values": len(vals)})
+}
+
+func refevalTypeName(v refeval.Value, err error) string {
+	if err != nil {
+		return "error"
+	}
+	return refeval.TypeName(v)
 }
